@@ -190,23 +190,37 @@ def run(chk):
             corr = oqupy.PowerLawSD(alpha=0.1 + 0.1 * j, zeta=1, cutoff=3.0, cutoff_type="exponential", temperature=0.2 * j)
             op = [oqupy.operators.sigma("z"), oqupy.operators.sigma("x") + 0.3 * oqupy.operators.sigma("z"), oqupy.operators.sigma("z")][j % 3]
             bath = oqupy.Bath(0.5 * op, corr)
-            par = oqupy.TempoParameters(dt=0.1, epsrel=1e-6, dkmax=3)
+            par = oqupy.TempoParameters(dt=0.1, epsrel=1e-6, dkmax=3)  # tolerance below: 1e3*epsrel
             fn = os.path.join(tmp, f"tempo_{j}.hdf5")
             mem = quiet(oqupy.pt_tempo_compute, bath, 0.0, 0.5, parameters=par, progress_type="silent")
             fil = quiet(oqupy.pt_tempo_compute, bath, 0.0, 0.5, parameters=par, process_tensor_file=fn, progress_type="silent")
             chk.search_cases += 1
-            same = len(mem) == len(fil) and all(
-                mem.get_mpo_tensor(k).shape == fil.get_mpo_tensor(k).shape
-                and np.allclose(mem.get_mpo_tensor(k), fil.get_mpo_tensor(k), rtol=0, atol=1e-12) for k in range(len(mem)))
-            same = same and all(np.allclose(mem.get_cap_tensor(k), fil.get_cap_tensor(k), rtol=0, atol=1e-12) for k in range(len(mem) + 1))
+            # The two computations are separate numerical runs: tensors may differ by an SVD gauge /
+            # truncation-level amount, so compare gauge-invariant content: metadata and the dynamics
+            # both process tensors produce for a test system (tolerance 1e3 * epsrel).
+            sysm = oqupy.System(0.7 * oqupy.operators.sigma("x") + 0.2 * oqupy.operators.sigma("z"))
+            rho0 = oqupy.operators.spin_dm("x+")
+            dm = quiet(oqupy.compute_dynamics, sysm, initial_state=rho0, process_tensor=mem, progress_type="silent")
+            df = quiet(oqupy.compute_dynamics, sysm, initial_state=rho0, process_tensor=fil, progress_type="silent")
+            same = (len(mem) == len(fil) and mem.dt == fil.dt
+                    and (mem.transform_in is None) == (fil.transform_in is None)
+                    and (mem.transform_in is None or np.allclose(mem.transform_in, fil.transform_in, atol=1e-12))
+                    and np.allclose(np.array(dm.states), np.array(df.states), rtol=0, atol=1e-3))
             if not same:
-                chk.fail("file-backed-pttempo-differs", "PT-TEMPO writing to a file differs from the in-memory computation", {"case": j})
+                chk.fail("file-backed-pttempo-differs", "PT-TEMPO writing to a file differs from the in-memory computation "
+                         f"(max state difference {np.abs(np.array(dm.states) - np.array(df.states)).max():.2e})", {"case": j})
+            # pure I/O: what the file object holds before close() is what is read back afterwards (exact)
+            held = [fil.get_mpo_tensor(k, transformed=False) for k in range(len(fil))]
+            held_caps = [fil.get_cap_tensor(k) for k in range(len(fil) + 1)]
             fil.close()
             with warnings.catch_warnings(record=True) as w:
                 warnings.simplefilter("always")
-                back = ptm.import_process_tensor(fn, "simple")
-            if w or len(back) != len(mem) or not all(np.allclose(back.get_mpo_tensor(k), mem.get_mpo_tensor(k), atol=1e-12) for k in range(len(mem))):
-                chk.fail("file-backed-pttempo-reimport", "re-imported PT-TEMPO file differs / warns", {"case": j, "warn": [str(x.message) for x in w]})
+                back = ptm.import_process_tensor(fn, "file")
+            ok = (not w) and len(back) == len(held) and all(np.array_equal(back.get_mpo_tensor(k, transformed=False), held[k]) for k in range(len(held))) \
+                and all(np.array_equal(back.get_cap_tensor(k), held_caps[k]) for k in range(len(held_caps)))
+            back.close()
+            if not ok:
+                chk.fail("file-backed-pttempo-reimport", "re-imported PT-TEMPO file differs from what was written / warns", {"case": j, "warn": [str(x.message) for x in w]})
     finally:
         shutil.rmtree(tmp, ignore_errors=True)
 
